@@ -28,20 +28,24 @@ def table():
     T = {}
 
     def add(name, mpf, dom, cdom, **entries):
+        base = name.rstrip('0123456789').split('_')[0]
+        if 'glob' in entries and hasattr(algopy.Function, base):
+            # the value computed while wrapped in a tracer node (Function) is the same Taylor polynomial
+            entries['traced'] = (lambda g: lambda x: g(algopy.Function(x)).x)(entries['glob'])
         T[name] = dict(mp=mpf, dom=dom, cdom=cdom, entries=entries)
     add('exp', mp.exp, 'R', 'R', glob=algopy.exp, meth=lambda x: x.exp(), npy=np.exp)
     add('expm1', mp.expm1, 'R', 'R', glob=algopy.expm1, meth=lambda x: x.expm1(), npy=np.expm1)
     add('log', mp.log, 'pos', 'pos', glob=algopy.log, meth=lambda x: x.log(), npy=np.log)
     add('log1p', mp.log1p, 'gtm1', 'gtm1', glob=algopy.log1p, meth=lambda x: x.log1p(), npy=np.log1p)
     add('sqrt', mp.sqrt, 'pos', 'pos', glob=algopy.sqrt, meth=lambda x: x.sqrt(), npy=np.sqrt)
-    add('sin', mp.sin, 'R', 'R', glob=algopy.sin, meth=lambda x: x.sin(), npy=np.sin)
-    add('cos', mp.cos, 'R', 'R', glob=algopy.cos, meth=lambda x: x.cos(), npy=np.cos)
+    add('sin', mp.sin, 'R', 'R', glob=algopy.sin, meth=lambda x: x.sin(), npy=np.sin, pair=lambda x: x.sincos()[0])
+    add('cos', mp.cos, 'R', 'R', glob=algopy.cos, meth=lambda x: x.cos(), npy=np.cos, pair=lambda x: x.sincos()[1])
     add('tan', mp.tan, 'tan', 'tan', glob=algopy.tan, meth=lambda x: x.tan(), npy=np.tan)
     add('arcsin', mp.asin, 'unit', 'unit', glob=algopy.arcsin, meth=lambda x: x.arcsin(), npy=np.arcsin)
     add('arccos', mp.acos, 'unit', 'unit', glob=algopy.arccos, meth=lambda x: x.arccos(), npy=np.arccos)
     add('arctan', mp.atan, 'R', 'unit', glob=algopy.arctan, meth=lambda x: x.arctan(), npy=np.arctan)
-    add('sinh', mp.sinh, 'R', 'R', glob=algopy.sinh, meth=lambda x: x.sinh(), npy=np.sinh)
-    add('cosh', mp.cosh, 'R', 'R', glob=algopy.cosh, meth=lambda x: x.cosh(), npy=np.cosh)
+    add('sinh', mp.sinh, 'R', 'R', glob=algopy.sinh, meth=lambda x: x.sinh(), npy=np.sinh, pair=lambda x: x.sinhcosh()[0])
+    add('cosh', mp.cosh, 'R', 'R', glob=algopy.cosh, meth=lambda x: x.cosh(), npy=np.cosh, pair=lambda x: x.sinhcosh()[1])
     add('tanh', mp.tanh, 'R', 'tanh', glob=algopy.tanh, meth=lambda x: x.tanh(), npy=np.tanh)
     add('reciprocal', lambda x: 1 / x, 'nz', 'nz', glob=algopy.reciprocal, meth=lambda x: UTPM.reciprocal(x),
         div=lambda x: 1.0 / x)
@@ -112,7 +116,7 @@ def cases(tier, seed):
                     out.append({'kind': 'fn', 'seed': s, 'params': {
                         'fn': name, 'D': D, 'pattern': pat, 'P': int(r.choice(Ps)),
                         'shape': list(shapes[int(r.integers(len(shapes)))]), 'cplx': bool(r.integers(2)),
-                        'entry': int(r.integers(4)),
+                        'entry': int(r.integers(12)),
                         'layout': ['C', 'C', 'F', 'T', 'strided', 'reversed'][int(r.integers(6))]}})
     return out
 
